@@ -56,7 +56,7 @@ extern "C" void harness_c16_numbers()
     long d = 1 + (long)verif_choice("d", 4);
     RCP<const Number> q = Rational::from_two_ints(*a, *integer(d));
     RCP<const Number> c = Complex::from_two_nums(*q, *b);
-    int k = (int)verif_choice("k", 8);
+    int k = (int)verif_choice("k", 10);
     RCP<const Basic> e;
     switch (k) {
         case 0: e = q; break;
@@ -66,7 +66,9 @@ extern "C" void harness_c16_numbers()
         case 4: e = pow(add(x, b), q); break;
         case 5: e = mul(c, pow(x, pow(y, integer(2)))); break;
         case 6: e = Lt(mul(q, x), b); break;
-        default: e = logical_and({Le(x, a), Ne(y, b)}); break;
+        case 7: e = logical_and({Le(x, a), Ne(y, b)}); break;
+        case 8: e = pow(c, x); break;                       // complex (e.g. -I) and real numbers as power bases
+        default: e = pow(q, add(x, y)); break;              // negative / fractional numeric base
     }
     std::string s = e->__str__();
     RCP<const Basic> back;
